@@ -53,7 +53,7 @@ def load_known():
     if os.path.exists(p):
         for line in open(p):
             line = line.strip()
-            if line and not line.startswith('#'):
+            if line and not line.startswith('#') and not line.startswith('fixed:'):
                 out.append(json.loads(line))
     return out
 
@@ -245,9 +245,10 @@ def main():
             violations.append((kr['name'], kr['replay'], '' if kr.get('has_input') else ' no-failing-input-found'))
         elif kr['status'] == 'undecided':
             undecided.append('kani %s: %s' % (kr['name'], kr['reason']))
+    notes = []
     for k in known:
         if not any(h is k for (h, _) in known_hits):
-            undecided.append('known finding %s no longer reproduces: remove it from known_findings.jsonl' % k.get('obligation'))
+            notes.append('known finding %s did not reproduce in this run (entry can be marked fixed)' % k.get('obligation'))
     n_obl = len(all_obls) + sum(1 for kr in kres if kr['kind'] == 'complete')
     n_dis = sum(1 for (o, r) in all_obls if o.ok is True) + sum(1 for kr in kres if kr['kind'] == 'complete' and kr['status'] == 'ok')
     wall = time.time() - t0
@@ -298,6 +299,8 @@ def main():
     print('%s %s: units=%s obligations=%d discharged=%d kani=%d  %.1fs' % (pid, tier, ','.join(units), n_obl, n_dis, len(kres), wall))
     for (h, o) in known_hits:
         print('KNOWN-FINDING: property=%s %s' % (pid, h.get('what', h.get('obligation'))))
+    for nt in notes:
+        print('NOTE: %s' % nt)
     for (name, path, tail) in violations:
         print('failed obligation: %s' % name)
         print('VIOLATION property=%s replay=%s%s' % (pid, path, tail))
@@ -309,7 +312,7 @@ def main():
         for (o, r) in und_obl:
             print('UNDECIDED: %s (%s)' % (o.name, o.ok))
         return 2
-    if n_obl == 0:
+    if n_obl == 0 and not kres:
         print('UNDECIDED: no obligations generated for %s' % pid)
         return 2
     return 0
